@@ -102,6 +102,8 @@ func c04(r *Run) {
 		r.borrow([]string{"C06.R4:"}, "C06.R4", "C04.R4", func() { c06(r) })
 		// a handler installed late still gets what was buffered before it (C06.R3)
 		r.borrow([]string{"C06.R3:SetOnRequest"}, "C06.R3", "C04.R7", func() { c06(r) })
+		// a delivery that found the buffer empty starts the handler, and a task that gives the lock back looks again (C06.R2/R3)
+		r.borrow([]string{"C06.R2:exit-only-if-drained", "C06.R2:reread-len-after-unlock", "C06.R3:try-when-was-empty"}, "C06.R", "C04.R7.", func() { c06(r) })
 		// the private copies handed to the reader are not recycled under it (C03.R4)
 		r.borrow([]string{"C03.R4:private-copy-is-heap"}, "C03.R4", "C04.R8", func() { c03(r) })
 		// the sender's nodes keep their memory until it was sent: split ownership (C02.R4 / C03)
@@ -119,6 +121,6 @@ func c04(r *Run) {
 	r.borrow([]string{"C11.R6:interest-mask", "C11.R6:batch-dispatched"}, "C11.R6", "C04.R9", func() { c11(r) })
 	r.borrow([]string{"C11.R3:drain-before-hup", "C11.R3:drained-count-feeds-decision", "C11.R3:hup-verdict-has-reason"}, "C11.R3", "C04.R4", func() { c11(r) })
 	if w.Cfg.Name == "linux" || w.Cfg.Name == "darwin" {
-		r.borrow([]string{"C08.R2:signal-only-when-drained", "C08.R2:flush-return", "C08.R3:register-before-wait", "C08.R2:rw2r-order"}, "C08.R", "C04.R5.", func() { c08(r) })
+		r.borrow([]string{"C08.R2:signal-only-when-drained", "C08.R2:flush-return", "C08.R2:Flush-has-no-success-of-its-own", "C08.R3:register-before-wait", "C08.R2:rw2r-order"}, "C08.R", "C04.R5.", func() { c08(r) })
 	}
 }
